@@ -192,15 +192,20 @@ CHECKS.update({
 
 CHECKS.update({
     "C05": dict(
-        text="Coq: the two models are composed (Ser/RoundTrip.v: unembed, roundtrip_case = deserialize-model after "
-             "serialize-model is the identity, value_eqb distinguishing list / tuple / set / frozenset) and evaluated by "
-             "vm_compute on every value the implementation round-tripped; theorem C05_any_data_round_trip (the JSON value built "
-             "for Any data reads back as the same data, any depth). Partial: the inductive round-trip theorem over the typed "
-             "fragment is not proved; it is checked case by case on the models. Tie: model-free round trips on the "
-             "implementation (direct, through json.dumps/loads, and the dual on accepted data) + model composition.",
+        text="Coq theorem C05_round_trip (Ser/RoundTripInd.v), by induction on the nesting of classes and on the type: for "
+             "every universe, options and well-typed canonical value of a type built from primitives, List, Tuple, "
+             "Dict[str, X], Literal, Enum, unions whose alternatives accept disjoint classes of JSON data (Optional, ...) and "
+             "dataclasses / NamedTuples (recursive included) without skip options serialized in declaration order, the "
+             "serialization specification produces JSON that the deserialization specification maps back to that very value; "
+             "C05_round_trip_checked states it with executable hypotheses, which the run evaluates on every generated case "
+             "(count in the evidence); C05_hypotheses_satisfiable; C05_any_data_round_trip for Any. Partial: sets, constraints, "
+             "TypedDict, skip options, exclude_* are outside the theorem and checked case by case on the composed models "
+             "(roundtrip_case, vm_compute). Tie: model-free round trips on the implementation (direct, through json, and the "
+             "dual on accepted data) + model composition on the same values; the two specifications are tied to the "
+             "implementation by C01 and C04.",
         note=SER_NOTE + " The bijective fragment (no serialized method, skip(serialization_if), fall_back_on_default, "
              "pass_through, exclude_none, dependent_required, ambiguous unions) is delimited by the generator.",
-        technique="Coq model composition evaluated on the cases + lemma on the data embedding + metamorphic round trips",
+        technique="Coq proof (round trip by induction on class nesting and type) + model composition evaluated on the cases + metamorphic round trips",
         design_ref="DESIGN.md §4 C05"),
     "C07": dict(
         text="Every serialize output is validated with jsonschema against serialization_schema generated under the same global "
